@@ -198,30 +198,48 @@ def r1_exact_routing_only(F, r):
 
 
 def l1_leg_queries_agree(F, r):
-    """within one body of the solution writer all routing queries of a leg use the same (from, to, departure)"""
-    root = F.find1("solution_writer::create_tour")
+    """wherever one body asks the routing provider for both the distance and the duration (and cost) of a leg, it asks for the same (from, to[, departure])"""
+    import collections
     n = 0
-    for g in F.family(root):
-        fn = F.fns[g]
-        qs = [(bi, t) for bi, t in mir.calls(fn) if t["callee"] in (TC + "distance", TC + "duration", TC + "cost") and len(t["args"]) >= 5]
-        if not qs:
+    writer_seen = False
+    for fid, fn in sorted(F.fns.items()):
+        if "::promoted[" in fid:
             continue
-        sig = {}
+        qs = [(bi, t) for bi, t in mir.calls(fn) if t["callee"].startswith(TC) and t["callee"].split("::")[-1] in ("distance", "duration", "cost", "distance_approx", "duration_approx")]
+        kinds = {t["callee"].split("::")[-1].replace("_approx", "") for _, t in qs}
+        if not ({"distance", "duration"} <= kinds):
+            if "solution_writer::create_tour" in fid and qs:
+                r.fail(f"{util.short_fn(fid)}: leg queries", f"the reported leg is no longer described by both distance and duration queries (found {sorted(kinds)})", F.loc(fid))
+                writer_seen = True
+            continue
+        memo = {}
+        by = collections.defaultdict(list)
         for bi, t in qs:
-            key = tuple(mir.expr(fn, a) for a in t["args"][2:5])
-            sig.setdefault(key, []).append(t)
+            a = t["args"]
+            exact = not t["callee"].endswith("_approx")
+            key = (mir.expr(fn, a[2], 0, memo), mir.expr(fn, a[3], 0, memo))
+            by[key].append((t, mir.expr(fn, a[4], 0, memo) if exact and len(a) > 4 else None))
             n += 1
-        kinds = {t["callee"].split("::")[-1] for _, t in qs}
-        if len(sig) == 1 and {"distance", "duration"} <= kinds:
-            r.ok(f"{util.short_fn(g)}: leg queries", f"{len(qs)} queries ({', '.join(sorted(kinds))}) share one (from, to, departure)")
-        elif len(sig) > 1:
-            minority = min(sig.values(), key=len)[0]
-            r.fail(f"{util.short_fn(g)}: leg queries", f"`{minority['callee'].split('::')[-1]}` is asked for a different (from, to, departure) than the other routing queries of the same leg: "
-                   "distance, driving time and cost of a reported leg no longer describe the same trip", F.loc(g, minority["ln"]))
-        else:
-            r.fail(f"{util.short_fn(g)}: leg queries", f"the leg is no longer described by both distance and duration queries (found {sorted(kinds)})", F.loc(g))
-    if n < 1:
-        raise AnchorError("no routing query in create_tour")
+        name = util.short_fn(fid)
+        if "solution_writer::create_tour" in fid:
+            writer_seen = True
+        bad = False
+        for key, items in by.items():
+            ks = {t["callee"].split("::")[-1].replace("_approx", "") for t, _ in items}
+            deps = {d for _, d in items if d is not None}
+            if not ({"distance", "duration"} <= ks):
+                t = items[0][0]
+                bad = True
+                r.fail(f"{name}: leg queries", f"`{t['callee'].split('::')[-1]}` is asked for a (from, to) that the sibling distance/duration query of the same body does not use: "
+                       "distance and time of one leg no longer describe the same trip", F.loc(fid, t["ln"]))
+            elif len(deps) > 1:
+                t = items[-1][0]
+                bad = True
+                r.fail(f"{name}: leg departure", "the routing queries of one leg use different departure times (time-dependent matrices give inconsistent distance / duration / cost)", F.loc(fid, t["ln"]))
+        if not bad:
+            r.ok(f"{name}: leg queries", f"{len(qs)} queries over {len(by)} leg(s): distance and duration always asked for the same (from, to, departure)")
+    if n < 8 or not writer_seen:
+        raise AnchorError(f"only {n} paired routing queries found (writer seen: {writer_seen})")
 
 
 def g1_tag_positions(F, r):
@@ -256,6 +274,6 @@ def run(ctx):
     ctx.run("C03-H1", "Statistic::add is a field-wise sum over all fields; overall statistic = fold over tours", h1_statistic_sum, floor=10)
     ctx.run("C03-H2", "per-leg accumulation keeps statistic fields apart", h2_leg_accumulation, floor=8)
     ctx.run("C03-R1", "report / check / schedule code uses exact routing queries only (no `_approx`)", r1_exact_routing_only, floor=1)
-    ctx.run("C03-L1", "distance, duration and cost of a reported leg are queried for the same (from, to, departure)", l1_leg_queries_agree, floor=1)
+    ctx.run("C03-L1", "distance, duration and cost of a leg are queried for the same (from, to, departure) in every body that asks for both", l1_leg_queries_agree, floor=4)
     ctx.run("C03-G1", "place tags are indexed by place position", g1_tag_positions, floor=1)
     ctx.run("C03-U1", "cost coefficients multiply quantities of their own unit", u1_units, floor=4)
